@@ -41,7 +41,10 @@ CONTRACT_RULE = ("contract stream: one evaluation = one line: a contract receive
                  "at every momentum) answered from the model state; contracts: plasma, stake, htlc, pillar, sentinel (+ QSR "
                  "deposits), liquidity stakes, bridge unwrap/redeem; calls are built by contract-specific generators (valid flows, "
                  "wrong owner, too early / exactly at / just after maturity or window edges, repeated, unknown id, wrong "
-                 "token/amount/duration/preimage/signature, proxy unlock allowed/denied); five histories in six run with shortened "
+                 "token/amount/duration/preimage/signature, proxy unlock allowed/denied; htlc secrets whose length is at / next to "
+                 "the entry's KeyMaxSize, 0, 255 / 256 / 257, twice the maximum, up to the call-data limit, and k*256 + j with "
+                 "j <= KeyMaxSize - lengths that fit only modulo 2^8 - locked under their real digest and presented before "
+                 "expiry; pillar names of length 1, max-1, max, max+1, 2*max, 255..257, 256+j); five histories in six run with shortened "
                  "lock periods (the constants are package variables), one in six with the production values; two thirds run under "
                  "the accelerator+bridge+htlc sporks, of those half with the liquidity and half with the bridge administrator "
                  "setup; monitors: sum of recorded liabilities <= balance per contract and token at every momentum, every payout "
@@ -110,7 +113,24 @@ PROPS = {
                 "(ApplyBlock); the harness then makes the producer's calls itself (GenerateMomentum, then for every contract "
                 "SequencerFront + GenerateAutoReceive + insertion, then the contracts' Update calls) under recover; monitors per "
                 "accepted send: no panic / no error on the producer path, exactly one receive, status 1 or status 2 with exact "
-                "refund and byte-identical contract storage, every inbox empty after the loop",
+                "refund and byte-identical contract storage, every inbox empty after the loop, and a periodic Update call fails only "
+                "with its own refusal reasons (too recent / amount / accelerator ended), never with an error out of the reward "
+                "arithmetic. Boundary-integer sweep (one history under all sporks; thorough: under every regime): for every "
+                "method x every integer argument (scalars, slice elements) one call per value of the family 0, 1, 2, "
+                "2^k-1 / 2^k / 2^k+1 for k = 7, 8, 15, 16, 31, 32, 62, 63, 64, 127, 128, 254, 255, 256, c-1 / c / c+1 for every "
+                "numeric bound c of vm/constants (amount bounds for uint256 arguments, duration / percentage / count / "
+                "enumeration bounds for the narrow types; read from the tree under test), the ends of the argument's own "
+                "type, and b-1 / b / b+1 for the balances and token supplies (total, max, max - total) the receive compares "
+                "with; the same values on all integer arguments at once (total = max supply); on the block's Amount in the "
+                "canonical token; and the upper end of the family as Amount in a token of maximal supply "
+                "(total = max = TokenMaxSupplyBig) held by the sender, for every method; Mint / Burn / UpdateToken also on a "
+                "mintable token of maximal supply. The random boundary generators of all C09 streams draw from the same "
+                "family. Degenerate-epoch scenario (compressed calendar, two histories): reward epochs of the pillar, "
+                "sentinel, stake, liquidity and accelerator contracts are reached - with the producer's Update calls - "
+                "while a pillar's only backer owns no ZNN, weighted and weightless backers side by side, a pillar without "
+                "backers, a backer with one base unit, nobody delegating (total weight 0), a registered pillar that never "
+                "produces, a sentinel registered mid-epoch, the only sentinel / stake / liquidity stake revoked, a revoked "
+                "pillar with remaining delegators; coverage counters read the reached states back from the consensus layer",
         "partial": "proved: (ledger model, contract methods as parameters) complete-or-exact-refund with the contract's balance "
                    "delta, the inbox advances by exactly one, the refund of whatever is next in line is always accepted for a "
                    "non-token contract, the token contract always has an accepted outcome when the zero token standard has no "
